@@ -303,10 +303,17 @@ fn param_typed(p: &mut Parser<'_>, m: Marker) -> bool {
         expressions::q_or_c_reg_param(p);
         return true;
     }
+    // If the current token can start neither the type nor the name, nothing below consumes a token.
+    // Report that to the caller, which otherwise retries at the same token forever.
+    let progress = p.current().is_type()
+        || p.at(T![mutable])
+        || p.at(T![readonly])
+        || p.at(T!['['])
+        || p.at(IDENT);
     expressions::param_type_spec(p);
     expressions::var_name(p);
     m.complete(p, TYPED_PARAM);
-    true
+    progress
 }
 
 // TODO: Get clarification on the spec vis a vis defcal and def,
@@ -319,9 +326,11 @@ fn param_typed(p: &mut Parser<'_>, m: Marker) -> bool {
 // }
 
 fn scalar_type(p: &mut Parser<'_>, m: Marker) -> bool {
+    // See `param_typed`: `false` means that no token was consumed.
+    let progress = p.current().is_type() || p.at(T!['[']);
     expressions::type_spec(p);
     m.complete(p, SCALAR_TYPE);
-    true
+    progress
 }
 
 // These can be cast to GateOperand
